@@ -667,7 +667,25 @@ def h_gap(rp):
     return out
 
 
-HANDLERS = [("loader.load_default_scorer", h_loader), ("nb_scorer.", h_nb), ("ctparse._regex_stack.get_m_dist", h_gap), ("partial_parse.PartialParse.", h_partial_parse), ("nb_estimator.", h_nb), ("ctparse._match_rule", h_match_rule), ("ctparse._ctparse.emission", h_emission), ("ctparse._ctparse", h_deadline), ("ctparse._regex_stack", h_deadline), ("ctparse._get_labels", h_labels), ("ctparse.ctparse[", h_ctparse), ("regex[", h_reglan),
+def h_regexmatch(rp):
+    """spans of real pattern matches on texts with a word after the expression"""
+    import importlib
+    C = importlib.import_module("ctparse.ctparse")
+    R = importlib.import_module("ctparse.rule")
+    out = {"func": rp["func"], "clause": rp["clause"]}
+    bad = []
+    for txt in ("wed foo", "zehn foo", "2000 foo", "3 foo", "10h foo", "ein tag foo", "half an hour foo", "tomorrow 8pm foo"):
+        for m in C._match_regex(txt, R._regex):
+            seg = txt[m.mstart:m.mend]
+            if seg != seg.strip() or m.mstart >= m.mend or m.mstart != m.match.span("R%d" % m.id)[0]:
+                bad.append({"text": txt, "pattern_id": m.id, "span": [m.mstart, m.mend], "covers": seg})
+                break
+    out["spans_with_a_blank_or_empty"] = bad[:5]
+    out["confirmed"] = bool(bad)
+    return out
+
+
+HANDLERS = [("types.RegexMatch.__init__", h_regexmatch), ("loader.load_default_scorer", h_loader), ("nb_scorer.", h_nb), ("ctparse._regex_stack.get_m_dist", h_gap), ("partial_parse.PartialParse.", h_partial_parse), ("nb_estimator.", h_nb), ("ctparse._match_rule", h_match_rule), ("ctparse._ctparse.emission", h_emission), ("ctparse._ctparse", h_deadline), ("ctparse._regex_stack", h_deadline), ("ctparse._get_labels", h_labels), ("ctparse.ctparse[", h_ctparse), ("regex[", h_reglan),
             ("types.Artifact.__eq__", h_eq), ("corpus.parse_nb_string.nb_str", h_roundtrip),
             ("postprocess_latent.apply_postprocessing_rules", h_postprocess),
             ("types.Time.", h_accessor), ("types.Interval.", h_accessor),
